@@ -353,3 +353,37 @@ Proof.
   intros [Hp Hw]. apply libfull2_forged_world_never_terminates.
   apply (terminatesG forged_cfg (libfull2 forged_cfg) no_url no_lint mu Post ltac:(reflexivity) Hp Hw).
 Qed.
+
+(* lib_ranked fails for libfull2 as well (on arraySort it is libfull) *)
+Theorem libfull2_not_ranked cfg rank : ~ lib_ranked (libfull2 cfg) rank.
+Proof.
+  intros H. apply (libfull_not_ranked cfg rank). intros name cb cb' Hb args w.
+  destruct (op_is name "systemPartial" || match partial_loc name with Some _ => true | None => false end)%bool eqn:E.
+  - (* not a name of libfull: it declines, whatever the callback *)
+    rewrite !libfull_unfold.
+    assert (Hn : text_override name args = false /\ str_mem name core_names = false /\ op_is name "arraySort" = false /\
+                 str_mem name Q.modelled_functions = false /\ str_mem name more_names = false).
+    { apply orb_true_iff in E. destruct E as [E|E].
+      - unfold op_is in E. apply str_eqb_eq in E. subst name. repeat split; try reflexivity.
+      - unfold partial_loc in E. destruct name as [|c0 rest]; [discriminate E|]. destruct c0; [|discriminate E].
+        destruct rest as [|c1 [|c2 t]]; try discriminate E. repeat split; reflexivity. }
+    destruct Hn as (-> & -> & -> & -> & ->). reflexivity.
+  - apply orb_false_iff in E. destruct E as [E1 E2].
+    pose proof (H name cb cb' Hb args w) as H0. unfold libfull2 in H0. rewrite E1 in H0.
+    destruct (partial_loc name); [discriminate E2|exact H0].
+Qed.
+
+(* the nest at work, under maxStatements = 10:   b = arrayNew(3, 1, 2)   a = arrayNew(arraySort, b)   return arraySort(a, arraySort)
+   the outer sort's first comparison is arraySort(b, arraySort), whose first comparison arraySort(1, 3) fails on its arguments;
+   the failure passes through both sorts to the call handler: null, 3 statements, b and a as they were *)
+Definition nest_prog : script :=
+  [ SExpr (Some (U "b")) (ECall (U "arrayNew") [ENum (NInt 3); ENum (NInt 1); ENum (NInt 2)]);
+    SExpr (Some (U "a")) (ECall (U "arrayNew") [EVar (U "arraySort"); EVar (U "b")]);
+    SReturn (Some (ECall (U "arraySort") [EVar (U "a"); EVar (U "arraySort")])) ].
+
+Lemma nest_example : forall bot fuel,
+  let cfg := mkcfg 10 false true in
+  let r := execute_script_bot cfg (libfull2 cfg) no_url no_lint bot (20 + fuel) nest_prog (world0 []) in
+  fst r = OVal VNull /\ w_count (snd r) = 3 /\
+  w_arrs (snd r) = [[VNum (NInt 3); VNum (NInt 1); VNum (NInt 2)]; [VFun (FLib (U "arraySort")); VArr 0]].
+Proof. intros bot fuel. vm_compute. repeat split. Qed.
